@@ -228,6 +228,14 @@ class Report:
         cov["wall_s"] = round(wall, 2)
         if cov.get("evaluations") and wall > 0:
             cov["runs_per_hour"] = int(cov["evaluations"] / wall * 3600)
+            # one derived PRNG seed per sampled case (crash engines: per base run, whose kill points are then enumerated)
+            seeds = cov.setdefault("seeds_used", cov.get("base_runs") or cov["evaluations"])
+            cov["seeds_per_hour"] = int(seeds / wall * 3600)
+        steps = (cov.get("scheduler_steps") or 0) + (cov.get("simulated_fs_operations") or 0)
+        if steps:
+            cov["simulated_time_s"] = float(steps)
+            cov.setdefault("simulated_time_note", "the virtual clock advances 1 s per seam operation (scheduler hand-off or "
+                           "file-system operation); no verdict depends on time")
         ev = {"property_id": self.prop, "tier": self.tier, "seed": self.seed,
               "level": self.level, "coverage": cov,
               "assumptions": list(assumptions) + self.assumptions,
